@@ -158,7 +158,7 @@ impl Failure {
         m.insert("api".into(), json!(self.api));
         if !self.shape.is_empty() {
             m.insert("shape".into(), json!(self.shape));
-            if self.kind == "read_disagrees_with_written_quads" {
+            if self.kind == "read_disagrees_with_written_quads" && !self.api.starts_with("QueryBuilder") {
                 m.insert("index_serving_the_shape".into(), json!(serving_index(self.shape)));
             }
         }
@@ -221,6 +221,10 @@ impl Plan {
         }
         let last = u.ng - 1; // highest writable graph (0 when there is no named one: never, ng >= 2)
         let mut merged: Vec<Vec<u8>> = vec![vec![], vec![0], vec![1], vec![1, 1], vec![0, 1], vec![1, 0, 1], (0..=u.ng).collect(), vec![u.ng], vec![last, 0, last], vec![u.ng, last]];
+        for g in 0..u.ng {
+            merged.push(vec![g, g]);
+        }
+        merged.sort();
         merged.dedup();
         Plan { patterns, visible, merged, global: true, aliases: true, query_builder: true }
     }
@@ -378,7 +382,7 @@ impl<'a> Chk<'a> {
         for g in 0..=u.ng {
             let exp = g == 0 || self.m.named.contains(&g);
             let got = di.graph_exists(self.ids.g[g as usize]);
-            self.obs.read(A_GRAPH_EXISTS, exp);
+            self.obs.read(A_GRAPH_EXISTS, exp && g != 0);
             if got != exp {
                 return Err(Failure {
                     kind: "graph_catalog_disagrees_with_graph_lifecycle",
@@ -403,7 +407,7 @@ impl<'a> Chk<'a> {
             if with_default {
                 exp.insert(0, 0);
             }
-            self.obs.read(api, !exp.is_empty());
+            self.obs.read(api, exp.len() > with_default as usize);
             if got != exp {
                 let missing: Vec<u8> = exp.iter().copied().filter(|g| !got.contains(g)).collect();
                 let extra: Vec<u8> = got.iter().copied().filter(|g| !exp.contains(g)).collect();
